@@ -302,7 +302,7 @@ def abstract_state(ps, I, outside_digest, has_args=None, rebase=0):
     td = [[I("id:" + rel), I("d:" + str(v["digest"]))] for rel, v in sorted(ps["tdirs"].items())]
     # don't-care entries: archive files, the temporary archive index, the staging directory of restore
     misc_items = [(k, ps["tree"].get(k)) for k in ps["other"] if not re.search(r"\.tar\.gz$", k)
-                  and not k.startswith("version_index_archive") and k != "archive-tmp"]
+                  and not k.startswith("version_index_archive") and k != CLI.staging_name()]
     misc = I("m:" + json.dumps(sorted(
         (k, v, CLI.subtree_digest(ps["tree"], k) if v == "d" else "") for k, v in misc_items)))
     return {"rows": rows, "vdirs": vd, "tdirs": td, "misc": misc, "outside": I("o:" + str(outside_digest))}
